@@ -155,12 +155,16 @@ def build(recipe):
                 if L.get("shared_w") is not None:
                     shared[L["shared_w"]] = wt
             bias_t = -1
-            if L.get("bias", True):
+            if L.get("bias", True) and L.get("shared_b") is not None and ("b", L["shared_b"]) in shared:
+                bias_t = shared[("b", L["shared_b"])]
+            elif L.get("bias", True):
                 bdt = "int64" if x["dtype"] == "int16" and L.get("bias64", True) else "int32"
                 bmax = L.get("bmax", 2000)
                 bdata = rs.randint(-bmax, bmax + 1, size=(oc,)).astype(NPDT[bdt])
                 bsc = [f32(f32(x["q"][0]) * s) for s in wscales]
                 bias_t = add_tensor(nm + "_b", [oc], bdt, (bsc, [0] * len(bsc)), bdata)
+                if L.get("shared_b") is not None:
+                    shared[("b", L["shared_b"])] = bias_t
             if op == "TRANSPOSE_CONV":
                 OH = H * sh if pad == "SAME" else (H - 1) * sh + kh
                 OW = W * sw if pad == "SAME" else (W - 1) * sw + kw
@@ -583,15 +587,17 @@ def gen_recipe(r, cfg=None, profile="mixed"):
                 emit(dict(op="RESHAPE", shape=shp, **{"in": [xi]}), shp, x["q"])
             elif op == "CONCATENATION":
                 ax = r.choice([3, 3, 1, 2])
+                # the int8 reference kernel requires identical quantisation of all operands and the result; uint8 may rescale
+                same_q = dtype != "uint8" or r.random() < 0.5
                 cands = [i for i, v in enumerate(vals) if len(v["shape"]) == 4 and v["dtype"] == dtype and
-                         all(v["shape"][d] == x["shape"][d] for d in range(4) if d != ax)]
+                         all(v["shape"][d] == x["shape"][d] for d in range(4) if d != ax) and (not same_q or tuple(v["q"]) == tuple(x["q"]))]
                 k = r.choice([2, 2, 3])
                 ins_ = [xi] + [r.choice(cands) for _ in range(k - 1)]
                 shp = list(x["shape"])
                 shp[ax] = sum(vals[i]["shape"][ax] for i in ins_)
                 if shp[ax] > 4096:
                     continue
-                q_ = x["q"] if r.random() < 0.5 else oq
+                q_ = x["q"] if same_q else oq
                 emit(dict(op="CONCATENATION", axis=ax, q=list(q_), **{"in": ins_}), shp, tuple(q_))
             elif op == "PAD":
                 pads = [[0, 0], [r.randint(0, 2), r.randint(0, 2)], [r.randint(0, 2), r.randint(0, 2)], [0, 0]]
